@@ -73,10 +73,16 @@ def sites64 : SymSites :=
 /-- `arrange_local_symbols` dispatches on `elf_file.get_class() == ELFCLASS32` -/
 def sitesOf (c : Cls) : SymSites := if arr_is32 (clsByte c) then sites32 else sites64
 
+/-- `get_symbols_num()` : `switch ( elf_file.get_class() )` choosing `minimum_symbol_size` -/
+def minSymSize (c : Cls) : BitVec 64 :=
+  match c with
+  | .c32 => arr_min32
+  | .c64 => arr_min64
+
 /-- `get_symbols_num()`.  The division is guarded by `entry_size >= sizeof(Sym) > 0`. -/
 def symbolsNum (s : SecBuf) : BitVec 64 :=
-  let min := match s.cls with | .c32 => arr_min32 | .c64 => arr_min64
-  if arr_num_ok s.entSize min s.size s.streamSize then arr_num_div s.size s.entSize else 0
+  if arr_num_ok s.entSize (minSymSize s.cls) s.size s.streamSize then arr_num_div s.size s.entSize
+  else 0
 
 /-- `generic_get_symbol_ptr<T>(index)` : the section after `get_data()` and the byte offset of
     the record (`none` = nullptr) -/
